@@ -355,6 +355,17 @@ func init() {
 		return true
 	})
 
+	reg("github.com/prometheus/common/model.ParseDuration", "err == nil iff durationParses(s); then the result is durationOf(s), else 0", func(c *callCtx) bool {
+		x := c.x
+		x.vc.declFun("uf_dur_parses", []string{SStr}, SBool)
+		x.vc.declFun("uf_dur_of", []string{SStr}, SInt)
+		ok := app("uf_dur_parses", c.args[0].S)
+		e := x.fresh("parsedur_err", c.resTypes[1])
+		c.n.assume(mkEq(app("=", app("i.tag", e.S), "0"), ok))
+		c.res = []Term{{S: mkIte(ok, app("uf_dur_of", c.args[0].S), "0"), Sort: SInt, T: c.resTypes[0]}, e}
+		return true
+	})
+
 	// --- logging: no effect on program state
 	for _, n := range []string{"log/slog.Debug", "log/slog.Info", "log/slog.Warn", "log/slog.Error", "(*log/slog.Logger).Debug", "(*log/slog.Logger).Info", "(*log/slog.Logger).Warn", "(*log/slog.Logger).Error",
 		"(*log/slog.Logger).Log", "log/slog.Log", "(*log/slog.Logger).Enabled", "log/slog.Default"} {
